@@ -27,6 +27,18 @@ CLAIMED = {
              "evaluation is a constant number, pricing table entries >= 0 for positions 1..wrap (establishment by "
              "_calculate_pricing_tiers not yet under contract), no re-entrancy between approval and player_added.",
         ref="4.C20"),
+    "C18": dict(
+        text="Every public operation of Counter, Sequence and Accrual (count/hit, enable, disable, reset, restart, "
+             "complete, timeout) is verified against a transition contract: a hit while disabled or inside the hit "
+             "window changes nothing and posts nothing; an accepted hit adds exactly one interval; hit events carry "
+             "the new count; complete() fires its events once and is a no-op when already complete, then resets / "
+             "disables as configured; sequences advance only in order. 'For all histories' follows by induction "
+             "over the per-operation contracts (DESIGN 2.8).",
+        note="Trusted: pyvc encoding, z3/cvc5, client view of DelayManager (C13) and event posting (C01), "
+             "DeviceMonitor __setattr__ side effect ignored, A-CONFIG. Accrual contracts are for 3-step accruals and "
+             "event lists of length 2 (stated as bounded in the evidence); control events add/subtract/jump not yet "
+             "under contract.",
+        ref="4.C18"),
 }
 
 NA = {}
